@@ -167,13 +167,18 @@ pub fn check_generation<'b>(
             // the descriptor names no legal move (of this mode). Is it a right position with a wrong name?
             let plain = Mv { from: d.from, to: d.to, promo: 0 };
             let all = p.legal_moves();
-            let renamed = all.iter().find(|m| m.from == d.from && m.to == d.to && diff_board(s, &p.apply(**m)).is_none());
+            // (any legal move whose resulting position this successor is - the descriptor may
+            // differ in the promotion letter, in the destination, or in the origin)
+            let renamed = all
+                .iter()
+                .find(|m| m.from == d.from && m.to == d.to && diff_board(s, &p.apply(**m)).is_none())
+                .or_else(|| all.iter().find(|m| diff_board(s, &p.apply(**m)).is_none()));
             if let Some(m) = renamed {
                 if judge_succ || judge_set {
                     let prop = if judge_succ { prop_succ } else { prop_set };
                     cx.violate(
                         prop,
-                        format!("{}/{}/descriptor/{}-printed-as-{}", prop, tag, move_class(p, *m), if d.promo != 0 { "promotion" } else { "plain" }),
+                        format!("{}/{}/descriptor/{}-printed-as-{}", prop, tag, move_class(p, *m), if d.promo != 0 && m.promo == 0 { "promotion" } else if d.from != m.from || d.to != m.to { "another-move" } else { "plain" }),
                         format!("successor is the position after {} but its descriptor reads {} (in {})", m.uci(), d.uci(), p.fen()),
                         ply,
                         path,
@@ -241,9 +246,7 @@ pub fn check_generation<'b>(
         for m in &want {
             if !seen.contains(m) {
                 // a move whose position was produced under another name is already reported
-                let produced_under_other_name = succ.iter().any(|s| {
-                    descriptor(s).map(|d| d.from == m.from && d.to == m.to && d != *m).unwrap_or(false) && diff_board(s, &p.apply(*m)).is_none()
-                });
+                let produced_under_other_name = succ.iter().any(|s| descriptor(s).map(|d| d != *m).unwrap_or(false) && diff_board(s, &p.apply(*m)).is_none());
                 if produced_under_other_name {
                     continue;
                 }
